@@ -109,7 +109,61 @@ def outcome_key(o) -> tuple:
     return ("ok", o.value) if o.ok else ("err", o.err_class)
 
 
+def _deep(n: int, inner: str = "{{ 1 }}{{ 2 }}") -> str:
+    return "{% if true %}" * n + inner + "{% endif %}" * n
+
+
+def limit_history_cases():
+    """One environment, one limit, a sequence of templates: what the limit refused (or let through) earlier does not change what it does
+    for a later template - success under a limit stays success under the same and under any larger limit."""
+    for limit_name, ok_src, bad_src, lims in (
+        ("block_nesting_limit", lambda L: _deep(L), lambda L: _deep(L + 2), (1, 3, 5)),
+        ("loop_iteration_limit", lambda L: "{% for i in (1.." + str(L) + ") %}x{% endfor %}", lambda L: "{% for i in (1.." + str(L + 1) + ") %}{% for j in (1..2) %}x{% endfor %}{% endfor %}", (2, 6)),
+        ("output_stream_limit", lambda L: "y" * L, lambda L: "{{ 'z' }}" * (L + 1), (1, 8)),
+        ("context_depth_limit", lambda L: "{% with a: 1 %}" * max(L - 2, 0) + "q" + "{% endwith %}" * max(L - 2, 0), lambda L: "{% render 'selfr' %}", (4, 6)),
+        ("local_namespace_limit", lambda L: "{% assign a = 'k' %}{{ a }}", lambda L: "{% assign b = '" + "w" * 300 + "' %}{{ b | size }}", (120,)),
+    ):
+        for L in lims:
+            for k in (1, 2, 5):
+                for is_async in (False, True):
+                    yield {"kind": "limit-history", "limit": limit_name, "L": L, "ok": ok_src(L), "bad": bad_src(L), "repeats": k, "async": is_async}
+
+
+def judge_limit_history(ctx: core.Ctx, case: dict[str, Any]) -> None:
+    name, L = case["limit"], case["L"]
+    partials = {"selfr": "r{% render 'selfr' %}"}
+
+    def mk(limit):
+        return drv.make_env({"mode": "strict", "extra": True, "limits": {name: limit}}, loader=DictLoader(dict(partials)), base=MonEnv)
+
+    def go(env, src):
+        return drv.parse_and_render(env, src, {}, use_async=case.get("async", False))
+
+    fresh = go(mk(L), case["ok"])
+    env = mk(L)
+    first = go(env, case["ok"])
+    refused = [go(env, case["bad"]) for _ in range(case["repeats"])]
+    again = go(env, case["ok"])
+    bigger = mk(L + 1)
+    for _ in range(case["repeats"]):
+        go(bigger, case["bad"] if name != "block_nesting_limit" else _deep(L + 3))
+    larger = go(bigger, case["ok"])
+    ctx.count("limit_histories")
+    ctx.evaluations += 1
+    if not fresh.ok:
+        ctx.count("limit_history_baseline_not_ok")
+        return
+    for what, o in (("the first render", first), (f"the same template after {case['repeats']} refused one(s) in the same environment", again), (f"the same template under the larger limit {L + 1}, after refused ones there", larger)):
+        if o.key() != fresh.key():
+            ctx.violation(f"not-monotone:{name}:history-in-one-environment", f"{name}={L}: {case['ok']!r:.120} renders {fresh.brief()!r:.60} in a fresh environment but {what} gives {o.brief()!r:.100}")
+            return
+    ctx.ok((name, L, case["repeats"], case.get("async")), nontrivial=any(not r.ok for r in refused))
+
+
 def judge(ctx: core.Ctx, case: dict[str, Any]) -> None:
+    if case.get("kind") == "limit-history":
+        judge_limit_history(ctx, case)
+        return
     data = V.dec(case["data"])
     # workload guard (never a verdict): see C07
     probe = run(case, HEAVY, data)
@@ -234,6 +288,9 @@ HAND = [
 
 
 def cases(ctx: core.Ctx):
+    for gi, c in enumerate(limit_history_cases()):
+        if gi % ctx.nshards == ctx.shard:
+            yield c
     for h in HAND:
         yield dict(h, data=V.enc({"xs": [1, 2, 3]}))
     # strings that have no UTF-8 encoding (lone surrogates) written under an output limit
